@@ -50,6 +50,13 @@ def index_param(m):
         if isinstance(n, ast.Call) and norm(n.func).endswith("dump") and len(n.args) >= 2:
             idx_dict = norm(n.args[0])
             m.dump = n
+            # a plain-dict copy made for pickling, under a name of its own: the index dictionary is its source
+            if isinstance(n.args[0], ast.Name) and n.args[0].id not in f.params:
+                ds = [st.value for st in walk_own(f.node) if isinstance(st, ast.Assign) and norm(st.targets[0]) == n.args[0].id]
+                if len(ds) == 1 and isinstance(ds[0], ast.Call) and norm(ds[0].func) == "dict" and len(ds[0].args) == 1 and isinstance(ds[0].args[0], ast.Name):
+                    idx_dict = ds[0].args[0].id
+                elif len(ds) == 1 and isinstance(ds[0], ast.Call) and isinstance(ds[0].func, ast.Attribute) and ds[0].func.attr == "copy" and isinstance(ds[0].func.value, ast.Name):
+                    idx_dict = ds[0].func.value.id
         if isinstance(n, ast.With):
             for it in n.items:
                 c = it.context_expr
@@ -157,7 +164,12 @@ def r10_1(ctx, m):
         if "[0]" in slots:
             g = c09.guards_of(m.pass2, slots["[0]"][0])
             g = [(ast.parse(_subst(norm(t), alias), mode="eval").body, pol) for t, pol in g]
-            extra = [norm(t) for t, pol in g if canon_pair(t, pol)[0] not in (f"{key}[0] is None", f"{idx_path} is None")]
+            # a guard that only looks at the text of the line being written (its type check before decoding) does not
+            # select records: it is not a condition of the index update
+            wst = [e.node for e in evs if e.kind == "stmt" and c09.is_write_stmt(ctx, m, e.node)]
+            line_names = {n.id for w_ in wst for n in ast.walk(w_) if isinstance(n, ast.Name)} - {wr, m.rec, idx_dict}
+            harmless = line_names | {"isinstance", "bytes", "str", "type"}
+            extra = [norm(t) for t, pol in g if canon_pair(t, pol)[0] not in (f"{key}[0] is None", f"{idx_path} is None") and not ({n.id for n in ast.walk(t) if isinstance(n, ast.Name)} <= harmless)]
             if extra:
                 bad = (p, f"the 'first' slot is also governed by {extra}")
                 break
@@ -243,13 +255,13 @@ def r10_3(ctx, m):
     repo = ctx.repo
     # 'unknown' is removed before the dump
     sn_default = "unknown"
-    region_src = [st for st in walk_stmts(f.node.body) if st.lineno > m.pass2.lineno and st.lineno < m.dump.lineno]
+    region_src = [st for st in walk_stmts(f.node.body) if f.before(m.pass2, st) and f.before(st, m.dump) and not any(x is st for x in ast.walk(m.pass2))]
     removed = any(isinstance(c, ast.Call) and isinstance(c.func, ast.Attribute) and c.func.attr == "pop" and norm(c.func.value) == m.idx_dict and c.args and const_value(c.args[0]) == sn_default for st in region_src for c in ast.walk(st)) or any(isinstance(st, ast.Delete) and sn_default in norm(st) for st in region_src)
     ctx.check(removed, "R10.3", f.where(m.dump), "the 'unknown' bucket is removed from the index before it is pickled", key_of(f, "unknown-removed"))
     # the dumped object is the index dictionary filled in the write loop (possibly converted with dict())
     dumped = norm(m.dump.args[0])
     conv = [st for st in region_src if isinstance(st, ast.Assign) and norm(st.targets[0]) == dumped]
-    ok = all(norm(st.value) in (f"dict({dumped})", dumped) for st in conv)
+    ok = all(norm(st.value) in (f"dict({dumped})", dumped, f"dict({m.idx_dict})", m.idx_dict, f"{m.idx_dict}.copy()", f"dict({m.idx_dict}.items())") for st in conv) and (dumped == m.idx_dict or bool(conv))
     ctx.check(ok, "R10.3", f.where(m.dump), "the object pickled is the dictionary filled in the write loop", key_of(f, f"dumped:{[norm(s) for s in conv]}"))
     # caller: index path default
     callers = repo.callers_of(f)
